@@ -506,7 +506,7 @@ fn inject_before<'a>(module: &mut Module<'a>, owner: u32, api: u8, ops: Vec<Oper
             }
         }
         if it.next().is_none() {
-            panic!("harness: iterator never reached function {} instruction {}", owner, idx);
+            panic!("library: the module iterator never reached function {} instruction {}", owner, idx);
         }
     };
     // the alternate of the marker's `drop` starts with that `drop` - once
@@ -521,7 +521,7 @@ fn inject_before<'a>(module: &mut Module<'a>, owner: u32, api: u8, ops: Vec<Oper
             }
         }
         1 => {
-            let mut fm = module.functions.get_fn_modifier(FunctionID(owner)).expect("harness: owner is a local function");
+            let mut fm = module.functions.get_fn_modifier(FunctionID(owner)).expect("library: get_fn_modifier refuses a function the model holds as local");
             fm.before_at(at(2));
             for op in ops {
                 fm.inject(op);
@@ -529,7 +529,7 @@ fn inject_before<'a>(module: &mut Module<'a>, owner: u32, api: u8, ops: Vec<Oper
         }
         2 => {
             // after the marker's `drop`
-            let mut fm = module.functions.get_fn_modifier(FunctionID(owner)).expect("harness: owner is a local function");
+            let mut fm = module.functions.get_fn_modifier(FunctionID(owner)).expect("library: get_fn_modifier refuses a function the model holds as local");
             fm.after_at(at(1));
             for op in ops {
                 fm.inject(op);
@@ -537,7 +537,7 @@ fn inject_before<'a>(module: &mut Module<'a>, owner: u32, api: u8, ops: Vec<Oper
         }
         3 => {
             // replace the marker's `drop` by `drop; ops`
-            let mut fm = module.functions.get_fn_modifier(FunctionID(owner)).expect("harness: owner is a local function");
+            let mut fm = module.functions.get_fn_modifier(FunctionID(owner)).expect("library: get_fn_modifier refuses a function the model holds as local");
             fm.alternate_at(at(1));
             if !alt_started {
                 fm.inject(Operator::Drop);
@@ -558,7 +558,7 @@ fn inject_before<'a>(module: &mut Module<'a>, owner: u32, api: u8, ops: Vec<Oper
             }
         }
         5 => {
-            let mut fm = module.functions.get_fn_modifier(FunctionID(owner)).expect("harness: owner is a local function");
+            let mut fm = module.functions.get_fn_modifier(FunctionID(owner)).expect("library: get_fn_modifier refuses a function the model holds as local");
             fm.func_entry();
             for op in ops {
                 fm.inject(op);
@@ -633,7 +633,7 @@ pub fn apply<'a>(op: &Op, module: &mut Module<'a>, model: &mut Model) {
             model.next_name += 1;
             let ty = module.functions.get_type_id(FunctionID(*h));
             let ok = module.convert_local_fn_to_import(FunctionID(*h), "conv".to_string(), format!("c{}", n), ty);
-            assert!(ok, "harness: convert_local_fn_to_import refused a local function");
+            assert!(ok, "library: convert_local_fn_to_import refused a function the model holds as local");
             if let Some(f) = model.func_mut(*h) {
                 f.import = Some(("conv".into(), format!("c{}", n)));
                 f.marker = None;
@@ -645,7 +645,7 @@ pub fn apply<'a>(op: &Op, module: &mut Module<'a>, model: &mut Model) {
         }
         Op::ImportToLocal(h) => {
             let (m, n) = model.func(*h).and_then(|f| f.import.clone()).expect("harness: ImportToLocal on an import");
-            let imp_id = module.imports.find(m, n).expect("harness: imports.find finds the import");
+            let imp_id = module.imports.find(m, n).expect("library: imports.find does not find a live import");
             let k = model.next_marker;
             model.next_marker += 1;
             let mut b = FunctionBuilder::new(&[], &[]);
@@ -691,7 +691,7 @@ pub fn apply<'a>(op: &Op, module: &mut Module<'a>, model: &mut Model) {
             model.exports.push(MExport { name: format!("x{}", n), kind: "func".into(), target: *h, live: true });
         }
         Op::DeleteExport(name) => {
-            let id = module.exports.get_export_id_by_name(name.clone()).expect("harness: export exists");
+            let id = module.exports.get_export_id_by_name(name.clone()).expect("library: get_export_id_by_name does not find a live export");
             module.exports.delete(id);
             if let Some(e) = model.exports.iter_mut().find(|e| e.live && &e.name == name) {
                 e.live = false;
@@ -706,7 +706,7 @@ pub fn apply<'a>(op: &Op, module: &mut Module<'a>, model: &mut Model) {
                 module.set_fn_name(FunctionID(*h), name.clone());
             } else if is_import {
                 let (m, nn) = model.func(*h).and_then(|f| f.import.clone()).unwrap();
-                let imp_id = module.imports.find(m, nn).expect("harness: imports.find");
+                let imp_id = module.imports.find(m, nn).expect("library: imports.find does not find a live import");
                 module.imports.set_name(name.clone(), imp_id);
             } else {
                 assert!(module.functions.set_local_fn_name(FunctionID(*h), name.clone()));
